@@ -421,7 +421,9 @@ int main(void)
       uint64_t save_pos = pos, save_out = total_out, save_hash[64]; unsigned c; soxr_error_t e;
       memcpy(save_hash, hash, sizeof(hash)); memset(hash, 0, sizeof(hash)); pos = 0; total_out = 0;
       in = make_input(n, &in_free); out = make_output(ol);
-      e = soxr_oneshot(irate, orate, ch, in, n, &idone, out, ol, &odone, &last_io, &last_q, &last_rt);
+      /* `oneshot n olen 0`: without an idone pointer (soxr.h: idone may be NULL - then the whole block is the input) */
+      e = soxr_oneshot(irate, orate, ch, in, n, nt >= 4 && !atoi(t[3])? 0 : &idone, out, ol, &odone, &last_io, &last_q, &last_rt);
+      if (nt >= 4 && !atoi(t[3])) idone = n;
       if (odone <= ol) absorb_output(out, odone);
       printf("H1 out=%" PRIu64 " idone=%zu err=%s", total_out, idone, e? e : "-");
       for (c = 0; c < ch && c < 64; ++c) printf(" %016" PRIx64, hash[c]);
